@@ -447,7 +447,9 @@ def run_build(ctx, bname, sigs, targets, n_random, nchunks):
             pc = pathc
             sg = model_sig(sigs[gi], kind)
             np_ = npos + (1 if kind == "pm" else 0)
-            vc = 1 if (pathc != "D" or kind == "ci") else 0      # callee entered through vectorcall (types too)
+            # callee entered through CPython's vectorcall machinery (which rejects non-str keys itself): everything
+            # except a CyFunction without vectorcall slot (METH_VARARGS / CYTHON_VECTORCALL=0) and tp_call instances
+            vc = 0 if (kind == "cc" or (kind in ("f", "cp") and (pathc == "D" or bname == "novec"))) else 1
             mq.append("call%d %s %s %d %s" % (vc, pc, sg, np_, model_kws(kws)))
             mq.append("callpy %s %s %d %s" % (pc, sg, np_, model_kws(kws)))
         mres = model.batch(mq)
